@@ -83,6 +83,34 @@ class Summariser:
                         n.value, str) and n.value:
                     return True
             return False
+        # a module-level function or a method of the class used as the
+        # replacement callback
+        target = None
+        if isinstance(repl, ast.Name):
+            r = self.repo.resolve_symbol(self.mod.name, repl.id)
+            if r is not None and r[0] == 'func':
+                target = r[1].node
+        elif isinstance(repl, ast.Attribute) and isinstance(
+                repl.value, ast.Name) and repl.value.id in ('self', 'cls') \
+                and self.cls is not None:
+            nm = repl.attr
+            o, meth = self.cls.find_method(nm)
+            if meth is None and nm.startswith('__'):
+                o, meth = self.cls.find_method(
+                    '_' + self.cls.name.lstrip('_') + nm)
+            if meth is None:
+                for k, v in self.cls.methods.items():
+                    if k.endswith(nm):
+                        meth = v
+            target = meth
+        if target is not None:
+            for n in ast.walk(target):
+                if isinstance(n, ast.Return) and n.value is not None:
+                    for x in ast.walk(n.value):
+                        if isinstance(x, ast.Constant) and isinstance(
+                                x.value, str) and x.value:
+                            return True
+            return False
         raise AnalysisError('cannot analyse replacement {} in {}'.format(
             unparse(repl), self.f.fq))
 
